@@ -136,6 +136,52 @@ def numeric_isinstance_ok(test):
     return {"int", "float"} <= names
 
 
+def dispatch_rule(repo, res, RULE):
+    """contains() of Interval and AngleInterval, evaluated for an int, a float and an interval argument: whatever the
+    dispatch looks like, a number must reach the number branch (nothing reads .start / .end / .length of it) and an
+    interval the interval branch (nothing compares the object itself) — shared with C08 (Q2)."""
+    from ..strdom import Ev, FuncV, Obj, Sym, Undecided, _Raise, show
+
+    mod = repo.mod(U)
+    for cn in ("Interval", "AngleInterval"):
+        cls = repo.cls(U, cn)
+        owner, fn = repo.find_method(cls, "contains")
+        if fn is None:
+            raise AnalysisError("%s.contains missing" % cn)
+        qn = "%s.contains" % cn
+        for label, arg in (("an int", Sym("x", "int")), ("a float", Sym("x", "float")), ("an interval", Obj(cls, {"_start": Sym("s2", "num"), "_end": Sym("e2", "num")}, label="other interval"))):
+            ev = Ev(repo)
+            ev.pure_modules = {"np", "numpy", "math", "warnings"}
+            compared = []
+
+            def oracle(kind, a, b, compared=compared):
+                if kind in ("Lt", "LtE", "Gt", "GtE"):
+                    compared.append((a, b))
+                    return True
+                return None
+
+            ev.oracle = oracle
+            # how an angle is measured is the subject of RANGE; here only which branch is taken
+            ev.stubs["AngleInterval._offset"] = lambda a: Sym("offset", "num")
+            ev.model_calls["vectorized_angle_difference"] = lambda a, k: Sym("difference", "num")
+            me = Obj(cls, {"_start": Sym("s1", "num"), "_end": Sym("e1", "num")}, label="interval")
+            bad = None
+            try:
+                ev.call_fn(FuncV(fn, self_val=me, cls=owner, mod=owner.mod), [arg], {}, fn)
+                if isinstance(arg, Obj) and any(x is arg or y is arg for x, y in compared):
+                    bad = "compares the interval object itself with a number"
+            except _Raise as x:
+                bad = "raises %s" % x.what
+            except Undecided as x:
+                raise AnalysisError("%s [%s]: %s" % (qn, label, x))
+            except AnalysisError as x:
+                if isinstance(arg, Sym) and ("attribute" in str(x) or "<x>" in str(x)):
+                    bad = "treats the number as an interval (%s)" % x
+                else:
+                    raise
+            res.check(RULE, "%s [%s]: reaches the branch for its kind" % (qn, label), bad is None, mod, fn, "%s [%s] %s" % (qn, label, bad), "integers (or floats) are sent to the interval branch and raise AttributeError, or an interval is compared like a number", qualname=qn)
+
+
 def verdict_compares(val):
     """the comparisons a returned truth value is made of (through and / or / not and the arms of a conditional
     expression; the test of a conditional expression selects, it is not part of the verdict)"""
@@ -209,7 +255,7 @@ def range_rule(repo, res, RULE="RANGE"):
 
 def run(repo, res, tier):
     res.rule("RANGE", "AngleInterval containment: asserts proved, offsets non-negative, bound reaches 2pi (interval abstract interpretation)", 4)
-    res.rule("DISPATCH", "number/interval dispatch admits int and float", 2)
+    res.rule("DISPATCH", "number/interval dispatch admits int and float (evaluated for an int, a float and an interval argument)", 6)
     res.rule("CLOSED", "Interval predicates are closed and compare the right operands", 5)
     res.rule("IMAGE", "interval arithmetic yields the image set with start <= end through the checking constructor", 5)
     res.rule("REJECT", "start > end is rejected; AngleInterval normalises and bounds the length", 5)
@@ -271,22 +317,8 @@ def run(repo, res, tier):
     if n_sub < 1:
         raise AnalysisError("AngleInterval.contains: branch for interval arguments not found")
 
-    # ------------------------------------------------------------- DISPATCH
-    for cls in (iv, av):
-        fn = cls.methods.get("contains")
-        if fn is None:
-            continue
-        p = fn.args.args[1].arg
-        for n in walk_no_nested(fn):
-            if isinstance(n, ast.Call) and call_name(n) == "isinstance" and norm(n.args[0]) == p:
-                t = norm(n.args[1])
-                if "Interval" in t:
-                    res.ok("DISPATCH", "%s.contains dispatches on the interval side (%s)" % (cls.name, t))
-                else:
-                    res.check("DISPATCH", "%s.contains: %s admits int and float" % (cls.name, norm(n)), numeric_isinstance_ok(n), mod, n, "%s.contains: %s" % (cls.name, norm(n)), "integers (or floats) are sent to the interval branch and raise AttributeError", qualname="%s.contains" % cls.name)
-            if isinstance(n, ast.Compare) and isinstance(n.left, ast.Call) and call_name(n.left) == "type" and norm(n.left.args[0]) == p:
-                t = norm(n.comparators[0])
-                res.check("DISPATCH", "%s.contains dispatches on %s" % (cls.name, norm(n)), "Interval" in t, mod, n, "%s.contains: %s" % (cls.name, norm(n)), "dispatch on a concrete numeric type excludes the other numeric types", qualname="%s.contains" % cls.name)
+    # ------------------------------------------------------------- DISPATCH (evaluated)
+    dispatch_rule(repo, res, "DISPATCH")
 
     # ------------------------------------------------------------- CLOSED
 
